@@ -81,6 +81,15 @@ def make_machine(tier):
                 else:
                     self.pool[len(self.trace) % 12] = y
 
+        @staticmethod
+        def same_cfgs(o, spec):
+            for c in spec['chains']:
+                require([int(x) for x in o.idl[c['name']]] == list(c['idl']),
+                        'constructor changed the configuration numbers of %s' % c['name'], list(o.idl[c['name']])[:12], c['idl'][:12])
+                eq = len(set(b - a for a, b in zip(c['idl'], c['idl'][1:]))) == 1
+                require(isinstance(o.idl[c['name']], range) == eq, 'range form of %s does not match the requested numbers' % c['name'])
+            return o
+
         def get(self, i):
             if not self.pool:
                 raise IndexError('empty pool')
@@ -100,14 +109,18 @@ def make_machine(tier):
             for cv in spec['cov']:
                 cv['name'] = '%s_k%d' % (cv['name'], len(cv['means']))      # one covariance matrix per name within a history
                 cv['cov'] = [[0.5 if i == j else 0.0 for j in range(len(cv['means']))] for i in range(len(cv['means']))]
-            self.add(build_obs(spec), 'constructed')
+            o = build_obs(spec)
+            self.same_cfgs(o, spec)
+            self.add(o, 'constructed')
             self.labels.append('construct')
 
         @vm.rule(specs=gen.related_obs_specs(2, ens_max=1, rep_max=3, lmin=8, lmax=nmax + 8, with_cov=False, sigma=gen.fl(0.01, 0.5), mean=gen.fl(0.3, 2.5)))
         @vm.traced
         def construct_related(self, specs):
             for sp in specs:
-                self.add(build_obs(sp), 'constructed')
+                o = build_obs(sp)
+                self.same_cfgs(o, sp)
+                self.add(o, 'constructed')
             self.labels.append('construct_related')
 
         @vm.rule(mean=st.one_of(gen.fl(-2, 2), st.integers(-2, 2)), var=gen.fl(0.01, 2.0), name=st.sampled_from(['cx', 'cy']))
